@@ -7,6 +7,11 @@ demo_dir = "."
 if "--demo-dir" in sys.argv:
     demo_dir = sys.argv[sys.argv.index("--demo-dir") + 1]
 src = f"/tmp/wt-out/{ID}"
+if "--src" in sys.argv:
+    src = sys.argv[sys.argv.index("--src") + 1]
+out_name = f"{ID}-{k}"
+if "--out" in sys.argv:
+    out_name = sys.argv[sys.argv.index("--out") + 1]
 env = dict(os.environ, GOFLAGS="-mod=mod", GOPROXY="off", GOSUMDB="off", GOTOOLCHAIN="local", GOWORK="off")
 def run(cmd, cwd, timeout=900):
     p = subprocess.run(cmd, cwd=cwd, shell=True, env=env, capture_output=True, text=True, timeout=timeout)
@@ -70,7 +75,7 @@ try:
     notes = f"{src}/notes{k}.md"
     if os.path.exists(notes):
         meta["needs"] = open(notes).read()[:3000]
-    out_dir = f"/verif/seeded/{ID}-{k}"
+    out_dir = f"/verif/seeded/{out_name}"
     os.makedirs(out_dir, exist_ok=True)
     shutil.copy(patch, f"{out_dir}/patch.diff")
     for f in demos:
